@@ -468,6 +468,7 @@ type vfX01Opts struct {
 	Hold     bool
 	Seed     int64
 	Release  string // release_version of the node (peers_v2 is asked from 4.0 on)
+	ConnHooks bool  // record the connection hooks of the session (x_ctx: a request refused because its context is done)
 }
 
 func vfX01NewEnv(o vfX01Opts) (*vfX01Env, error) {
@@ -508,6 +509,9 @@ func vfX01NewEnv(o vfX01Opts) (*vfX01Env, error) {
 		return nil, err
 	}
 	e.sess = s
+	if o.ConnHooks {
+		e.sc.BindSession(s)
+	}
 	// the pool reports its first connection on a goroutine of its own (handleNodeConnected marks the host up and
 	// tells the policy): wait for it, so that a later "hosts down" is not undone by it
 	if !vfX01WaitFor(30*time.Second, func() bool { return atomic.LoadInt32(&crr.ups) > 0 && s.getConn() != nil }) {
